@@ -337,6 +337,9 @@ func scanOnce(c scanCase, m *scanModel) (out Outcome) {
 	if nregions >= 2 {
 		out.Labels = append(out.Labels, "multi_region")
 	}
+	if c.Spec.CloseOpt {
+		out.Labels = append(out.Labels, "close_scanner_option")
+	}
 	if m.fragmented {
 		out.Labels = append(out.Labels, "fragmented")
 	}
@@ -516,6 +519,15 @@ func scanSpecGen(t *rapid.T) scanSpec {
 	s.Tape = rapid.SliceOfN(rapid.Byte(), 0, 24).Draw(t, "tape")
 	s.EmptyFragments = rapid.IntRange(0, 7).Draw(t, "emptyfrag") == 0
 	s.Twice = rapid.IntRange(0, 3).Draw(t, "twice") == 0
+	if rapid.IntRange(0, 7).Draw(t, "closeopt") == 0 {
+		// the CloseScanner option ("if you know that your scan result fits into one response"): at most 8
+		// rows in all and the plainest chunking, so that every region answers completely in its first response
+		s.CloseOpt = true
+		s.Tape, s.NumRows, s.Partials, s.EmptyFragments = nil, 0, false, false
+		if len(s.Rows) > 8 {
+			s.Rows = s.Rows[:8]
+		}
+	}
 	return s
 }
 
@@ -525,7 +537,7 @@ func TestC06_Scanner(t *testing.T) {
 		"rapid: tables of 0..30 rows (1..5 cells; keys over the biased alphabet incl. runs of up to seven 0xff, "+
 			"never eight), layouts of 1..6 regions with boundaries from rows/neighbours/fresh keys, [start,stop) with "+
 			"empty bounds / equal to boundaries / between rows / start>=stop, both directions, NumberOfRows in "+
-			"{default,1,2,3}, AllowPartialResults on/off, and a server chunking tape (rows per response, rows cut "+
+			"{default,1,2,3}, AllowPartialResults on/off, the CloseScanner option (1 in 8, only with <= 8 rows and the plainest chunking: every region answers completely in one response), and a server chunking tape (rows per response, rows cut "+
 			"into fragments that may span responses, final fragment flagged partial or not, heartbeats, delayed or "+
 			"early end-of-region / end-of-scan flags, optional zero-cell continuation fragments). The real scanner "+
 			"runs against a model RPCClient that routes and validates requests like a regionserver; oracle = "+
